@@ -7,7 +7,8 @@ pub use crate::matrix::{Matrix, Mat64};
 impl<T: Clone + Copy + Number + Signed + std::cmp::PartialOrd> Matrix<T> {
     #[inline]
     fn max_abs_in_column(&self, col: usize, start_row: usize) -> usize {
-        let mut max_index: usize = 0;
+        // start from the diagonal row: when the whole sub-column is zero no row above it may be exchanged in
+        let mut max_index: usize = start_row;
         let mut max = T::zero();
         for i in start_row..self.rows {
             if max < self[(i,col)].abs() {
